@@ -1,6 +1,6 @@
 """C18 - attributes() enumerates exactly the generating property sets, shortest first."""
 
-from vlib import gen, lib, tablecheck
+from vlib import gen, latcheck, lib, tablecheck
 from vlib.latcheck import Built
 from vlib.oracle import positions
 
@@ -44,6 +44,12 @@ def check_one(case, ctx, deep):
                     cl.append('nonempty-bottom')
                 ctx.case(q, bool(nt), cl)
             want = [tuple(case['p'][j] for j in g) for g in gens]
+            if rep == 0 and len(gens) >= 2 and i % 2 == 0:
+                # several live enumerations of one concept BEFORE any complete one (nested loops over generating sets)
+                seqs = ctx.call('attributes/interleaved', q, latcheck.interleaved, c.attributes)
+                for which, seq in zip(('first of two alternating', 'second of two alternating', 'outer of nested', 'inner of nested'), seqs):
+                    ctx.check(seq == want, 'attributes/interleaved', q,
+                              lambda: f'attributes() as the {which} iterator(s) of {c.extent}: {seq!r}, want {want!r}')
             got = ctx.call('attributes', q, lambda: list(c.attributes()))
             ctx.check(got == want, 'attributes', q, lambda: f'attributes of {c.extent} = {got!r}, want {want!r}')
             if ext:
